@@ -611,10 +611,16 @@ func (fc *FuncCtx) enterLoop(fr *Frame, li *loopInfo, cur *State) *State {
 			st.locals[k] = fc.freshValue(st, a.Type().(*types.Pointer).Elem(), "loop."+a.Comment)
 		}
 	}
+	preAlloc := fc.allocTerm(st)
 	if mod.all {
 		fc.havocAll(st)
-	} else if len(mod.keys) > 0 {
-		fc.havocKeys(st, mod.matcher())
+	} else {
+		if len(mod.keys) > 0 {
+			fc.havocKeys(st, mod.matcher(), "")
+		}
+		if fo := mod.freshOnly(); len(fo.keys) > 0 {
+			fc.havocKeys(st, fo.matcher(), preAlloc)
+		}
 	}
 	if mod.all || mod.allocs {
 		fc.bumpAlloc(st)
@@ -622,6 +628,9 @@ func (fc *FuncCtx) enterLoop(fr *Frame, li *loopInfo, cur *State) *State {
 	if mod.all || mod.ghost {
 		for k, v := range st.ghost {
 			if k == "$alloc" || strings.HasPrefix(k, "$defer:") {
+				continue
+			}
+			if !strings.HasPrefix(k, "$") && !fc.ghostUpdatedIn(fr, li, k) {
 				continue
 			}
 			if sc, ok := v.(Scalar); ok {
@@ -1015,4 +1024,45 @@ func (fc *FuncCtx) zeroElemsLeaf(st *State, base string, rootElem types.Type, pa
 		fc.unsupported("zero element of type %s", lt)
 	}
 	setAll(prefix+path, sc.Sort, sc.T)
+}
+
+// ghostUpdatedIn: a declared ghost variable is changed inside a loop only by `at call ... ghost x = e`
+// clauses whose call sites lie in the loop body.
+func (fc *FuncCtx) ghostUpdatedIn(fr *Frame, li *loopInfo, name string) bool {
+	if fr.con == nil {
+		return true
+	}
+	for _, ac := range fr.con.AtCalls {
+		for _, g := range ac.Ghost {
+			gu, err := parseGhostUpdate(g)
+			if err != nil {
+				return true
+			}
+			id, ok := gu.Target.(*EIdent)
+			if !ok || id.Name != name {
+				continue
+			}
+			for b := range li.body {
+				for _, ins := range b.Instrs {
+					var cc *ssa.CallCommon
+					switch x := ins.(type) {
+					case *ssa.Call:
+						cc = &x.Call
+					case *ssa.Defer:
+						cc = &x.Call
+					case *ssa.Go:
+						cc = &x.Call
+					}
+					if cc == nil {
+						continue
+					}
+					s, f := calleeNames(cc)
+					if matchCallee(ac.Callee, s, f) {
+						return true
+					}
+				}
+			}
+		}
+	}
+	return false
 }
